@@ -576,7 +576,9 @@ def directed_cases():
     return out
 
 
-def gen_cases(rng, tier, n):
+def gen_cases(rng, tier, n, directed=True):
+    if not directed:        # search / deepening streams: the directed histories were run by the main stream
+        return [gen_case(rng, tier, i) for i in range(n)]
     fixed = random.Random(20260926)
     scoped = [gen_scoped_case(fixed, tier, -1, force_clash=True) for _ in range(30)]
     return directed_cases() + scoped + [gen_case(rng, tier, i) for i in range(n)]
@@ -674,15 +676,27 @@ def announce(cases):
     return cases
 
 
+BATCH = 256
+
+
 def run_impl(case):
-    if _pending:
-        batch = list(_pending)
-        del _pending[:]
-        prim_table()
-        with concurrent.futures.ThreadPoolExecutor(N_WORKERS) as ex:
-            for c, r in zip(batch, ex.map(_safe_run, batch)):
-                _results[_key(c)] = r
-    r = _results.pop(_key(case), None)
+    k = _key(case)
+    if _pending and k not in _results:
+        # run the announced cases concurrently, a bounded batch at a time (the caller may stop asking — time budget —
+        # long before the announced stream is exhausted), up to and including the case asked for
+        # (cases are asked for in the order they were announced: what precedes the one asked for was announced by a
+        # stream the caller abandoned and is dropped; a case that was never announced is simply run now)
+        idx = next((i for i, c in enumerate(_pending) if c is case), None)
+        if idx is None:
+            idx = next((i for i, c in enumerate(_pending) if _key(c) == k), None)
+        if idx is not None:
+            batch = list(_pending[idx:idx + BATCH])
+            del _pending[:idx + BATCH]
+            prim_table()
+            with concurrent.futures.ThreadPoolExecutor(N_WORKERS) as ex:
+                for c, r in zip(batch, ex.map(_safe_run, batch)):
+                    _results[_key(c)] = r
+    r = _results.pop(k, None)
     if r is None:
         r = run_impl_now(case)
     if isinstance(r, Exception):
